@@ -34,8 +34,9 @@ git checkout -q --detach "$(git -C /repo rev-parse HEAD)" 2>/dev/null
 git checkout -q -- . ; git clean -fdq -e target
 # scratch copy of the machinery, path dependencies redirected to the worktree
 mkdir -p "$ROOT/verif"
-rsync -a --delete --exclude harness/target --exclude .git --exclude seeded --exclude mutants "$VERIF_SRC/" "$ROOT/verif/"
-sed -i "s#\"/repo#\"$ROOT/repo#g" "$ROOT/verif/harness/lqv-core/Cargo.toml" "$ROOT/verif/harness/lqv-sched/Cargo.toml"
+rsync -a --delete --exclude harness/target --exclude harness/sched/instr --exclude harness/sched/target --exclude .git --exclude seeded --exclude mutants "$VERIF_SRC/" "$ROOT/verif/"
+sed -i "s#\"/repo#\"$ROOT/repo#g" "$ROOT/verif/harness/lqv-core/Cargo.toml"
+export LQV_REPO="$ROOT/repo"   # tools/build_sched.sh instruments this tree for C20
 res() { echo "$1" | tee "/tmp/mut/results/$NAME.json"; }
 if ! git apply "$PATCH" 2>"$ROOT/apply.err"; then
   res "{\"mutant\":\"$NAME\",\"status\":\"apply-failed\"}"; exit 0
